@@ -108,7 +108,7 @@ func init() {
 	register("C16", func(e *Env) {
 		renderPrelude()
 		e.perShard = 60
-		e.rep.Rule = "generated functions of 0-4 parameters whose bodies are if/return decision chains (flat, nested, with else branches, dead code after the return) over their parameters x argument tuples from {0,1,2,3}, called with literal arguments and with argument expressions that mention outer variables named like the function's own parameters (swapped), the result used emitted / tested / compared / in arithmetic / passed to a Go helper / stored; arguments that are themselves user-function calls (nested, after an earlier call); higher-order use (stored, passed as argument, called through a parameter) and recursion (fact, fib, sum, ackermann); judged against a Go reference evaluation of the decision chain; distinct by (function, arguments, use)"
+		e.rep.Rule = "generated functions of 0-4 parameters whose bodies are if/return decision chains (flat, nested, with else branches, dead code after the return) over their parameters x argument tuples from {0,1,2,3}, called with literal arguments and with argument expressions that mention outer variables named like the function's own parameters (swapped), the result used emitted / tested / compared / in arithmetic / passed to a Go helper / stored; arguments that are themselves user-function calls (nested, after an earlier call); higher-order use (stored, passed as argument, called through a parameter) and recursion (fact, fib, sum, ackermann); calls whose body fails on an unknown identifier where that is tolerated, followed by further calls; judged against a Go reference evaluation of the decision chain; distinct by (function, arguments, use)"
 		judge := func(tag, tmpl, want string, binds []Bind) {
 			c := RCase{Tmpl: tmpl, Binds: append(binds, Bind{"id", vGo(107)})}
 			o := e.addRenderCase(tag, c)
@@ -212,6 +212,10 @@ func init() {
 			{`<% let twice = fn(g, x) { return g(g(x)) } %><%= twice(fn(v) { return v + 1 }, 1) %>|<%= twice(fn(v) { return v * 3 }, 1) %>|<%= for (k) in [1, 2] { %><%= twice(fn(v) { return v + k }, 0) %>,<% } %>`, "3|9|2,4,"},
 			{`<% let ack = fn(m, n) { if (m == 0) { return n + 1 } if (n == 0) { return ack(m - 1, 1) } return ack(m - 1, ack(m, n - 1)) } %><%= ack(1, 2) %>|<%= ack(2, 1) %>|<%= ack(2, 2) %>`, "4|5|7"},
 			{`<% let inc = fn(x) { return x + 1 } %><% let dbl = fn(x) { return x * 2 } %><% let apply = fn(g, x) { return g(x) } %><%= inc(0) %>|<%= apply(inc, dbl(3)) %>|<%= apply(dbl, inc(dbl(2))) %>`, "1|7|10"},
+			{`<% let a = 1 %><% let b = 2 %><% let pick = fn(a, b) { if (a == nil) { return nosuchthing } return b } %><%= if (pick(nil, 9) == nil) { %>none<% } %>|<%= pick(1, b) %>|<%= pick(b, a) %>|<%= a %><%= b %>`, "none|2|1|12"},
+			{`<% let x = "outer" %><% let f = fn(x) { return x + missingname } %><%= if (f("inner") == nil) { %>A<% } %>|<%= x %>|<%= !f("again") %>|<%= x %>`, "A|outer|true|outer"},
+			{`<% let g = fn(p) { let y = "local"
+ return missingname } %><%= !g(1) %>|<%= if (y) { %>leak<% } else { %>ok<% } %><% let z = 5 %>|<%= z %>`, "true|ok|5"},
 			{`<% let fact = fn(n) { if (n <= 1) { return 1 } return n * fact(n - 1) } %><%= fact(6) %>`, "720"},
 			{`<% let fib = fn(n) { if (n < 2) { return n } return fib(n - 1) + fib(n - 2) } %><%= fib(10) %>`, "55"},
 			{`<% let sum = fn(n) { if (n == 0) { return 0 } return n + sum(n - 1) } %><%= sum(20) %>`, "210"},
